@@ -1,6 +1,7 @@
 package stream
 
 import (
+	"bytes"
 	"encoding/binary"
 	"fmt"
 	"io"
@@ -15,15 +16,24 @@ func Read[T allowedGenericTypes](reader io.Reader) (result T, err error) {
 }
 
 func ReadBytes(reader io.Reader, length int) ([]byte, error) {
-	readBytes := make([]byte, length)
+	if length < 0 {
+		return nil, ierrors.Errorf("failed to read serialized bytes: invalid length %d", length)
+	}
 
-	// a reader is allowed to return fewer bytes than requested per call, so read until the buffer is full
-	nBytes, err := io.ReadFull(reader, readBytes)
+	// The length usually stems from an untrusted length prefix, so it is not allocated up front: the buffer
+	// grows with the bytes that actually arrive. A reader is also allowed to return fewer bytes than requested
+	// per call, so read until the requested length is complete.
+	var buffer bytes.Buffer
+	nBytes, err := io.CopyN(&buffer, reader, int64(length))
 	if err != nil {
 		return nil, ierrors.Wrapf(err, "failed to read serialized bytes: read bytes (%d) != size (%d)", nBytes, length)
 	}
 
-	return readBytes, nil
+	if length == 0 {
+		return []byte{}, nil
+	}
+
+	return buffer.Bytes(), nil
 }
 
 // ReadBytesWithSize reads a byte slice from the reader where lenType specifies the serialization length prefix type.
